@@ -380,6 +380,54 @@ def run(tier, seed):
         rep.count(("stale-awaitable", with_lock), True)
         if why:
             rep.violation("cached_property:stale-awaitable", {"lock": with_lock, "why": "await p; del; await p; fresh access; del; fresh access; await p: " + why})
+    # directed: the property may have any attribute name, a private (name-mangled) one or one of another shape: served from
+    # the cache on the second access, deleted by `del`, one getter run per cached value
+    for with_lock in (False, True):
+        runs3 = []
+        deco3 = a.cached_property(TLock) if with_lock else a.cached_property
+        CUR["sched"], CUR["locks"] = Sched(), []
+
+        class Named:
+            @deco3
+            async def __secret(self):
+                runs3.append("secret")
+                return 7
+
+            @deco3
+            async def _single(self):
+                runs3.append("single")
+                return 8
+
+            @deco3
+            async def __dunder__(self):
+                runs3.append("dunder")
+                return 9
+
+            async def use(self):
+                out = [await self.__secret, await self.__secret, await self._single, await self._single,
+                       await self.__dunder__, await self.__dunder__]
+                del self.__secret
+                out.append(await self.__secret)
+                return out
+
+        class _Named(Named):       # a class whose own name starts with an underscore
+            @deco3
+            async def __mine(self):
+                runs3.append("mine")
+                return 10
+
+            async def use2(self):
+                return [await self.__mine, await self.__mine]
+        try:
+            from gencalc import drive as _drive3
+            got = (_drive3(Named().use()), _drive3(_Named().use2()), list(runs3))
+            want = ([7, 7, 8, 8, 9, 9, 7], [10, 10], ["secret", "single", "dunder", "secret", "mine"])
+            why = None if got == want else "got %r, expected %r" % (got, want)
+        except BaseException as e:  # noqa
+            why = "failed with %r" % (e,)
+        rep.count(("attribute-names", with_lock), True)
+        if why:
+            rep.violation("cached_property:attribute-names", {"lock": with_lock, "why": "cached properties named __secret / _single / __dunder__ (and __mine in a class _Named): " + why})
     # directed: a subclass overrides the property and builds on the parent's through super(): one computation of each,
     # the child's value served afterwards; like functools.cached_property in synchronous code
     import functools as _ft
